@@ -23,6 +23,9 @@ CONSTANTS Formats,     \* subset of DOMAIN Cap
                        \* 99 "large frame": cheap function of the bead index, neighbours differ)
           MaxFiles,    \* file sessions per behaviour
           ExtraNext,   \* RNext calls after the end of the file
+          HVSet, HFSet, \* topology flags explored (subsets of BOOLEAN)
+          ReuseSet,    \* {FALSE}: fresh writer/reader object per session; {TRUE}: from the second session
+                       \* on the SAME (closed) object is opened again; BOOLEAN: both
           Emit
 
 VARIABLES fmt, nb, hv, hf,  \* format, bead count, topology has velocities / forces
@@ -44,43 +47,55 @@ vars == <<fmt, nb, hv, hf, phase, base, cur, file, nfiles, rn, started, failed, 
 \*  fexact    : force text is an exact decimal of the lattice value (dump converts kJ->kcal: no)
 \*  box       : "full" 9 entries, "diag" diagonal only (lammps dump without tilt), "none"
 \*  step      : step number stored and read back
+\*  time      : time stamp stored and read back (dlpoly HISTORY: step * dt with dt = time/step of the
+\*              first frame of the file; the model gives time = step * 2 fs, so it is exact.  gro/xyz/pdb
+\*              titles carry no time that a reader uses; dump has no time)
 \*  multi     : more than one frame per file;  append : Open(file, append=true) supported
 \*  constbox  : the box class is a property of the file (dlpoly header imcon)
 \*  top       : a TopologyReader exists for the format; names/resnames/types: what it recovers
 \*  epos, evel, ef, ebox : lattice exponents (value = K * 10^-e nm, nm/ps, kJ/mol/nm)
 \*  pmin,pmax,vmin,vmax,fmax,bmax,omin : field-width bounds for K
 Cap == [
-  gro  |-> [vel |-> TRUE,  force |-> FALSE, fexact |-> TRUE,  box |-> "full", step |-> FALSE,
+  gro  |-> [vel |-> TRUE,  force |-> FALSE, fexact |-> TRUE,  box |-> "full", step |-> FALSE, time |-> FALSE,
             multi |-> TRUE,  append |-> TRUE,  constbox |-> FALSE, top |-> TRUE,
             names |-> TRUE,  resnames |-> TRUE,  types |-> "name",
             epos |-> 3, evel |-> 4, ef |-> 3, ebox |-> 5,
             pmin |-> -999999, pmax |-> 9999999, vmin |-> -999999, vmax |-> 9999999,
             fmax |-> 1, bmax |-> 99999999, omin |-> -9999999],
-  dump |-> [vel |-> TRUE,  force |-> TRUE,  fexact |-> FALSE, box |-> "diag", step |-> TRUE,
+  dump |-> [vel |-> TRUE,  force |-> TRUE,  fexact |-> FALSE, box |-> "diag", step |-> TRUE, time |-> FALSE,
             multi |-> TRUE,  append |-> TRUE,  constbox |-> FALSE, top |-> TRUE,
             names |-> FALSE, resnames |-> FALSE, types |-> "partition",
             epos |-> 7, evel |-> 7, ef |-> 3, ebox |-> 7,
             pmin |-> -999999999, pmax |-> 999999999, vmin |-> -999999999, vmax |-> 999999999,
             fmax |-> 99999999, bmax |-> 999999999, omin |-> -99999999],
-  xyz  |-> [vel |-> FALSE, force |-> FALSE, fexact |-> TRUE,  box |-> "none", step |-> FALSE,
+  xyz  |-> [vel |-> FALSE, force |-> FALSE, fexact |-> TRUE,  box |-> "none", step |-> FALSE, time |-> FALSE,
             multi |-> TRUE,  append |-> TRUE,  constbox |-> FALSE, top |-> TRUE,
             names |-> FALSE, resnames |-> FALSE, types |-> "name",
             epos |-> 6, evel |-> 6, ef |-> 3, ebox |-> 6,
             pmin |-> -9999999, pmax |-> 99999999, vmin |-> -1, vmax |-> 1,
             fmax |-> 1, bmax |-> 99999999, omin |-> -9999999],
-  pdb  |-> [vel |-> FALSE, force |-> FALSE, fexact |-> TRUE,  box |-> "none", step |-> FALSE,
+  pdb  |-> [vel |-> FALSE, force |-> FALSE, fexact |-> TRUE,  box |-> "none", step |-> FALSE, time |-> FALSE,
             multi |-> TRUE,  append |-> TRUE,  constbox |-> FALSE, top |-> TRUE,
             names |-> TRUE,  resnames |-> TRUE,  types |-> "name",
             epos |-> 4, evel |-> 4, ef |-> 3, ebox |-> 4,
             pmin |-> -999999, pmax |-> 9999999, vmin |-> -1, vmax |-> 1,
             fmax |-> 1, bmax |-> 9999999, omin |-> -999999],
-  dlph |-> [vel |-> TRUE,  force |-> TRUE,  fexact |-> TRUE,  box |-> "full", step |-> TRUE,
+  \* pdb file with a CRYST1 record before every MODEL: PDBWriter::WriteBox(box in Angstrom - the unit
+  \* its callers in xtp pass) followed by Write().  The reader implements rectangular cells only
+  \* ("Non cubical box in pdb file not implemented, yet!"), so only orthorhombic frames are written.
+  pdbx |-> [vel |-> FALSE, force |-> FALSE, fexact |-> TRUE,  box |-> "diag", step |-> FALSE, time |-> FALSE,
+            multi |-> TRUE,  append |-> TRUE,  constbox |-> FALSE, top |-> TRUE,
+            names |-> TRUE,  resnames |-> TRUE,  types |-> "name",
+            epos |-> 4, evel |-> 4, ef |-> 3, ebox |-> 4,
+            pmin |-> -999999, pmax |-> 9999999, vmin |-> -1, vmax |-> 1,
+            fmax |-> 1, bmax |-> 99999999, omin |-> -999999],
+  dlph |-> [vel |-> TRUE,  force |-> TRUE,  fexact |-> TRUE,  box |-> "full", step |-> TRUE, time |-> TRUE,
             multi |-> TRUE,  append |-> FALSE, constbox |-> TRUE,  top |-> FALSE,
             names |-> FALSE, resnames |-> FALSE, types |-> "none",
             epos |-> 7, evel |-> 7, ef |-> 4, ebox |-> 7,
             pmin |-> -999999999, pmax |-> 999999999, vmin |-> -999999999, vmax |-> 999999999,
             fmax |-> 999999999, bmax |-> 999999999, omin |-> -99999999],
-  dlpc |-> [vel |-> TRUE,  force |-> TRUE,  fexact |-> TRUE,  box |-> "full", step |-> FALSE,
+  dlpc |-> [vel |-> TRUE,  force |-> TRUE,  fexact |-> TRUE,  box |-> "full", step |-> FALSE, time |-> FALSE,
             multi |-> FALSE, append |-> FALSE, constbox |-> TRUE,  top |-> FALSE,
             names |-> FALSE, resnames |-> FALSE, types |-> "none",
             epos |-> 7, evel |-> 7, ef |-> 4, ebox |-> 7,
@@ -139,7 +154,8 @@ StepOf(fr, k, nf) == 1000 * nf + 10 * k + (fr.pid % 10) + 1
 
 \* what the writer is given for frame fr as the k-th frame of file session nf
 Given(f, fr, k, nf) ==
-  [step |-> StepOf(fr, k, nf), bc |-> fr.bc, pid |-> fr.pid,
+  [step |-> StepOf(fr, k, nf), time |-> 2 * StepOf(fr, k, nf),   \* time in 10^-3 ps
+   bc |-> fr.bc, pid |-> fr.pid,
    box |-> [r \in 1..3 |-> [c \in 1..3 |-> BoxK(f, fr.bc, fr.pid, r, c)]],
    pos |-> [i \in 1..nb |-> [c \in 1..3 |-> PosK(f, fr.pid, i, c, k + 5 * nf)]],
    vel |-> IF hv THEN [i \in 1..nb |-> [c \in 1..3 |-> VelK(f, fr.pid, i, c, k + 5 * nf)]] ELSE <<>>,
@@ -152,6 +168,7 @@ HasForStored(f) == Cap[f].force /\ hf /\ (f \in {"dlph", "dlpc"} => hv)
 Stored(f, g) ==
   [n |-> nb,
    step |-> IF Cap[f].step THEN g.step ELSE -1,
+   time |-> IF Cap[f].time THEN g.time ELSE -1,
    boxmode |-> Cap[f].box,
    box |-> IF Cap[f].box = "none" THEN <<>> ELSE g.box,
    pos |-> g.pos,
@@ -172,24 +189,27 @@ Units(f) == [epos |-> Cap[f].epos, evel |-> Cap[f].evel, ef |-> Cap[f].ef, ebox 
 
 \* ---------------------------------------------------------------------------
 Init ==
-  /\ fmt \in Formats /\ nb \in NSet /\ hv \in BOOLEAN /\ hf \in BOOLEAN
+  /\ fmt \in Formats /\ nb \in NSet /\ hv \in HVSet /\ hf \in HFSet
   /\ phase = "idle" /\ base = 0 /\ cur = <<>> /\ file = <<>> /\ nfiles = 0
   /\ rn = 0 /\ started = FALSE /\ failed = FALSE /\ rpos = 0 /\ extra = 0
   /\ h = <<>>
 
-WOpen(app) ==
+\* reuse: the writer object of the previous session (closed) is opened again
+WOpen(app, reuse) ==
   /\ phase \in {"idle", "closed"} /\ nfiles < MaxFiles
   /\ app => (nfiles > 0 /\ Cap[fmt].append)
+  /\ reuse = (nfiles > 0 /\ reuse) /\ (nfiles > 0 => reuse \in ReuseSet)
   /\ phase' = "writing"
   /\ cur' = IF app THEN file ELSE <<>>
   /\ base' = IF app THEN Len(file) ELSE 0
-  /\ h' = Append(h, [a |-> "wopen", app |-> app])
+  /\ h' = Append(h, [a |-> "wopen", app |-> app, reuse |-> reuse])
   /\ UNCHANGED <<fmt, nb, hv, hf, file, nfiles, rn, started, failed, rpos, extra>>
 
 WWrite(fr) ==
   /\ phase = "writing"
   /\ Len(cur) - base < (IF Cap[fmt].multi THEN MaxFrames ELSE 1)
   /\ (Cap[fmt].constbox /\ Len(cur) > 0) => fr.bc = cur[1].bc
+  /\ fmt = "pdbx" => fr.bc = "ortho"
   /\ LET g == Given(fmt, fr, Len(cur) + 1, nfiles) IN
        /\ cur' = Append(cur, g)
        /\ h' = Append(h, [a |-> "wwrite", fr |-> g])
@@ -202,11 +222,15 @@ WClose ==
   /\ UNCHANGED <<fmt, nb, hv, hf, base, cur, rn, started, failed, rpos, extra>>
 
 \* reader session with a topology of nb + delta beads
-ROpen(delta) ==
+\* reuse: the reader object of an earlier session (closed, possibly after a reported error)
+HadReader == \E k \in 1..Len(h) : h[k].a = "rclose"
+ROpen(delta, reuse) ==
   /\ phase = "written" /\ nb + delta >= 1
+  /\ delta # 0 => nb >= 1      \* an empty frame against a non-empty topology is not specified
+  /\ reuse = (HadReader /\ reuse) /\ (HadReader => reuse \in ReuseSet)
   /\ phase' = "reading" /\ rn' = nb + delta
   /\ started' = FALSE /\ failed' = FALSE /\ rpos' = 0 /\ extra' = 0
-  /\ h' = Append(h, [a |-> "ropen", rn |-> nb + delta])
+  /\ h' = Append(h, [a |-> "ropen", rn |-> nb + delta, reuse |-> reuse])
   /\ UNCHANGED <<fmt, nb, hv, hf, base, cur, file, nfiles>>
 
 RFirst ==
@@ -250,10 +274,10 @@ RReadTopology ==
   /\ UNCHANGED <<fmt, nb, hv, hf, base, cur, file, nfiles, rn, started, failed, rpos, extra>>
 
 Next ==
-  \/ \E app \in BOOLEAN : WOpen(app)
+  \/ \E app \in BOOLEAN, reuse \in BOOLEAN : WOpen(app, reuse)
   \/ \E fr \in Frames : WWrite(fr)
   \/ WClose
-  \/ \E d \in {-1, 0, 1} : ROpen(d)
+  \/ \E d \in {-1, 0, 1}, reuse \in BOOLEAN : ROpen(d, reuse)
   \/ RFirst \/ RNext \/ RClose \/ RReadTopology
   \/ \E d \in {-1, 1} : RNextMismatch(d)
 Spec == Init /\ [][Next]_vars
